@@ -1009,5 +1009,162 @@ theorem written_type_implemented (c : Coding α) (e : Endian) (m : MeshVal α) (
     exact ⟨_, bs, by rw [← hte]; exact hbs⟩
 
 
+/-! ## the assembled mesh and `RoundTrips` -/
+
+theorem faceUV_nil (c : Coding α) (fs : List (WFace α)) (h : ∀ f ∈ fs, UvOk false f) :
+    (fs.map (faceUV c)).flatten = [] := by
+  induction fs with
+  | nil => rfl
+  | cons f fs ih =>
+    have hf := h f (by simp)
+    have : faceUV c f = [] := by
+      cases huv : f.uv with
+      | none => simp [faceUV, huv]
+      | some uv => simp [UvOk, huv] at hf
+    simp [this, ih (fun g hg => h g (by simp [hg]))]
+
+/-- reading back a written binary body (no per-corner texture coordinates): the mesh the reader assembles -/
+theorem readBody_writeBody_mesh (c : Coding α) (cfg : WriterCfg) (m : MeshVal α) (body : Bytes)
+    (hf : cfg.format ≠ .ascii) (hwf : m.WF = true) (h : writeBody c cfg m = .ok body)
+    (hnotex : ¬ (m.topo = .triangle ∧ hasTexCoord m = true))
+    (hpoint : m.topo = .point → m.indices = (List.range m.attrLen).map Int.ofNat)
+    (hsize : m.attrLen ≤ 2 ^ 31)
+    (bl : List (Built × List Nat)) (hcl : ClaimOK cfg m bl) :
+    ∃ recs, (List.range m.attrLen).mapM (vertexRecord m (selectWriters cfg m)) = .ok recs ∧
+      readBody c defaultReader (writeHeader cfg m) body
+        = .ok (applyColumns ⟨m.topo, m.indices, [], none⟩ (bl.map (·.1))
+            (recs.map (rowOfW c (writerTypes (selectWriters cfg m)) bl))) := by
+  have hloc : ∀ p ∈ bl, Located (writerTypes (selectWriters cfg m)) p.1 p.2 := by
+    intro p hp
+    have := (hcl.located p hp).loc
+    rwa [headerProps_types] at this
+  obtain ⟨recs, hrecs, hpt, htri⟩ := readBody_writeBody_arrays c cfg m body hf hwf h bl hcl.built hloc
+  refine ⟨recs, hrecs, ?_⟩
+  by_cases ht : m.topo = .triangle
+  · obtain ⟨tris, fs, hc, hfs, hread⟩ := htri ht
+    have hT : hasTexCoord m = false := by
+      cases hh : hasTexCoord m with
+      | false => rfl
+      | true => exact absurd ⟨ht, hh⟩ hnotex
+    obtain ⟨hidx, huv⟩ := faceRecords_shape m hwf tris fs hfs
+    rw [hT] at huv
+    rw [hread, faceUV_nil c fs huv, faces_indices m hwf hsize tris fs hc hidx]
+    simp [assemble, ht, pure, Except.pure]
+  · have hp : m.topo = .point := by cases hm : m.topo <;> simp_all
+    rw [hpt ht]
+    simp [assemble, hp, hpoint hp, pure, Except.pure]
+
+
+theorem comesBack_names_ne (w : WProp) (h : comesBack w = true) : w.names ≠ [] := by
+  intro hn
+  simp only [comesBack, hn, Bool.or_eq_true, List.any_eq_true, Bool.and_eq_true, decide_eq_true_eq] at h
+  rcases h with ⟨r, hr, _, h2⟩ | h
+  · have : ∀ r ∈ defaultReaders, r.names ≠ [] ∧ r.names.take 3 ≠ [] := by decide
+    rcases h2 with h2 | ⟨_, h2⟩
+    · exact (this r hr).1 h2
+    · exact (this r hr).2 h2
+  · simp at h
+
+/-- the corners of attribute `(dim, attr)` of a mesh whose array is `a.data` mapped by `g` -/
+theorem cornerVals_mapped (m back : MeshVal α) (hidx : back.indices = m.indices) (d : Nat) (n : Bytes) (a : Attr α)
+    (ha : m.find d n = some a) (g : List α → List α)
+    (hb : back.find d n = some ⟨d, n, a.data.map g⟩) (orig : List (List α)) (ho : gather a.data m.indices = .ok orig) :
+    cornerVals m d n = some orig ∧ cornerVals back d n = some (orig.map g) := by
+  by_cases hemp : m.indices = []
+  · have : orig = [] := by
+      rw [hemp] at ho; simp [gather, pure, Except.pure] at ho; exact ho
+    simp [cornerVals, hidx, hemp, this]
+  · have he : m.indices.isEmpty = false := by cases hm : m.indices <;> simp_all
+    simp [cornerVals, hidx, he, ha, hb, gather_map, ho, Except.map, Except.toOption]
+
+
+/-- `RoundTrips` for the mesh the reader assembles (no per-corner texture coordinates) -/
+theorem roundTrips_of_mesh [BEq α] [LawfulBEq α] (c : Coding α) (cfg : WriterCfg) (m : MeshVal α) (body : Bytes)
+    (hf : cfg.format ≠ .ascii) (hwf : m.WF = true) (h : writeBody c cfg m = .ok body)
+    (hnotex : ¬ (m.topo = .triangle ∧ hasTexCoord m = true))
+    (hnd : ((headerProps (selectWriters cfg m)).map (·.1)).Nodup)
+    (bl : List (Built × List Nat)) (hcl : ClaimOK cfg m bl) (recs : List (List α))
+    (hrecs : (List.range m.attrLen).mapM (vertexRecord m (selectWriters cfg m)) = .ok recs) :
+    RoundTrips c cfg m (applyColumns ⟨m.topo, m.indices, [], none⟩ (bl.map (·.1))
+      (recs.map (rowOfW c (writerTypes (selectWriters cfg m)) bl))) = true := by
+  have htop := foldl_col_topo (recs.map (rowOfW c (writerTypes (selectWriters cfg m)) bl)) (bl.map (·.1)).zipIdx
+    (⟨m.topo, m.indices, [], none⟩ : MeshVal α)
+  rw [← applyColumns_eq] at htop
+  obtain ⟨ht1, ht2⟩ := htop
+  simp only at ht1 ht2
+  simp only [RoundTrips, Bool.and_eq_true, List.all_eq_true, decide_eq_true_eq, ht1, primCount, ht2, true_and]
+  refine ⟨?_, by simp [hnotex]⟩
+  intro w hw
+  simp only [List.mem_filter, Bool.and_eq_true] at hw
+  obtain ⟨hws, hcb, _⟩ := hw
+  by_cases hemp : m.indices = []
+  · have hb0 := ht2
+    rw [hemp] at hb0
+    simp [cornerVals, hb0, hemp]
+  · -- at least one corner: at least one vertex
+    obtain ⟨i0, hi0⟩ := List.exists_mem_of_ne_nil _ hemp
+    have hpos : 0 < m.attrLen := by have := WF_idx m hwf i0 hi0; omega
+    have hall := mapM_ok_forall₂ _ _ _ hrecs
+    have hrl : recs.length = m.attrLen := by simpa using hall.length_eq
+    have hr0 : vertexRecord m (selectWriters cfg m) 0 = .ok recs[0] := by
+      have := All2.get hall 0 (by simpa using hpos) (by omega)
+      simpa using this
+    -- the attribute exists
+    have hfind : ∃ a, m.find w.dim w.attr = some a := by
+      have hr0' := hr0
+      simp only [vertexRecord] at hr0'
+      cases hp : (selectWriters cfg m).mapM (fun w => writerValues m w 0) with
+      | error e => simp [hp, bind, Except.bind] at hr0'
+      | ok parts =>
+        obtain ⟨p, hp'⟩ := All2.exists_left (mapM_ok_forall₂ _ _ _ hp) w hws
+        simp only [writerValues] at hp'
+        cases hfa : m.find w.dim w.attr with
+        | none => simp [hfa] at hp'
+        | some a => exact ⟨a, rfl⟩
+    obtain ⟨a, ha⟩ := hfind
+    obtain ⟨hmem, hdim⟩ := find_mem m _ _ a ha
+    have hal : a.data.length = m.attrLen := WF_len m hwf a hmem
+    -- its reader and column
+    obtain ⟨j, hj, hattr, hnames, hlastj⟩ := hcl.demanded w hws hcb
+    have hcol := column_of_writer c m hwf _ hnd recs hrecs w hws a ha bl j hj hnames (hcl.located _ (List.getElem_mem hj))
+    have hj' : j < (bl.map (·.1)).length := by simpa using hj
+    have hrows : recs.map (rowOfW c (writerTypes (selectWriters cfg m)) bl) ≠ [] := by
+      cases hr : recs with
+      | nil => rw [hr] at hrl; simp at hrl; omega
+      | cons r rs => simp
+    have hfindb := applyColumns_find (⟨m.topo, m.indices, [], none⟩ : MeshVal α) (bl.map (·.1))
+      (recs.map (rowOfW c (writerTypes (selectWriters cfg m)) bl)) j hj'
+      (fun j' hj'' hlt => by
+        have := hlastj j' (by simpa using hj'') hlt
+        simpa using this) hrows
+    have hkd : ((bl.map (fun (x : Built × List Nat) => x.1))[j]'hj').names.length = w.dim := by simp [hnames, WProp.dim]
+    have hka : ((bl.map (fun (x : Built × List Nat) => x.1))[j]'hj').attr = w.attr := by simp [hattr]
+    rw [hkd, hka] at hfindb
+    simp only [List.map_map, Function.comp_def] at hfindb
+    rw [hcol] at hfindb
+    -- corners
+    obtain ⟨orig, ho⟩ := gather_ok a.data m.indices (fun i hi => by
+      have := WF_idx m hwf i hi
+      exact ⟨this.1, by omega⟩)
+    obtain ⟨hc1, hc2⟩ := cornerVals_mapped m _ ht2 w.dim w.attr a ha (List.map (quantBin c w.dim w.ty)) hfindb orig ho
+    -- the written type is implemented, so `quant` is `quantBin`
+    obtain ⟨recs', vbytes, faceBytes, hrecs', hallenc, _, _, _⟩ := writeBody_bin_parts c cfg m body hf h
+    rw [hrecs] at hrecs'
+    have hre : recs' = recs := by injection hrecs' with h'; exact h'.symm
+    subst hre
+    have hvl : vbytes.length = recs'.length := hallenc.length_eq
+    have henc0 := All2.get hallenc 0 (by omega) (by omega)
+    obtain ⟨v', bs, himpl⟩ := written_type_implemented c cfg.format.endian m hwf _ _ _ 0 hr0 henc0 w hws
+      (comesBack_names_ne w hcb)
+    have hq : ∀ v, quant c cfg.format w.dim w.ty v = some (quantBin c w.dim w.ty v) :=
+      fun v => quant_bin_some c cfg.format hf w.dim w.ty v v' bs himpl
+    have hmm : orig.mapM (fun comps => comps.mapM (quant c cfg.format w.dim w.ty))
+        = some (orig.map (List.map (quantBin c w.dim w.ty))) := by
+      apply mapM_some_map
+      intro comps
+      exact mapM_some_map _ _ hq comps
+    simp [hc1, hc2, hmm]
+
+
 end PlyCompose
 end PolyVerif
